@@ -171,7 +171,7 @@ func judge(c maskCase) outcome {
 		}
 		return resp, nil
 	}
-	valJ := ref.StructToJSON(st, v)
+	valJ := ref.StructToJSON(st, driverValue(top, v).(*ref.StructV))
 	desc := fmt.Sprintf("%s under %s mask %q", c.Struct, colour(c.Black), c.Paths)
 	if c.At != nil {
 		desc += fmt.Sprintf(" attached to field %d", *c.At)
@@ -281,15 +281,9 @@ func judge(c maskCase) outcome {
 		if err != nil {
 			return outcome{status: "judged", err: fmt.Errorf("generated Read of %s: object does not fit the schema: %v", desc, err)}
 		}
-		var want ref.V
-		if c.Mode == "nomask" {
-			want = filterRead(top, v, nil, fmode{})
-		} else {
-			w, err := parse(c.WantRead)
-			if err != nil {
-				return harness("want_read: %v", err)
-			}
-			want = w
+		want, err := parse(c.WantRead)
+		if err != nil {
+			return harness("want_read: %v", err)
 		}
 		wn, gn := ref.Normalise(top, want), ref.Normalise(top, rv)
 		if !ref.Equal(wn, gn) {
@@ -297,6 +291,81 @@ func judge(c maskCase) outcome {
 		}
 	}
 	return outcome{status: "judged"}
+}
+
+// loadBaselines asks the driver for a newly constructed object of every struct-like.
+func loadBaselines(sess *drv.Session, sch *ref.Schema) (baselines, error) {
+	out := baselines{}
+	for _, st := range sch.Structs {
+		if st.Def == nil {
+			continue
+		}
+		ti, ok := sess.Type(st.Name)
+		if !ok {
+			if len(st.Fields) == 0 {
+				out[st.Name] = ref.NewStruct()
+				continue
+			}
+			var names []string
+			for _, t := range sess.Types {
+				names = append(names, t.Key+"="+t.IDL)
+			}
+			return nil, fmt.Errorf("harness: no unique Go type for %s (%d candidates; registered: %v)", st.Name, len(sess.ByIDL[st.Name]), names)
+		}
+		resp, err := sess.Proc.Call(map[string]interface{}{"op": "new", "type": ti.Key})
+		if err != nil {
+			return nil, fmt.Errorf("harness: %v", err)
+		}
+		if resp["harness"] != nil || resp["panic"] != nil {
+			return nil, fmt.Errorf("harness: new %s: %v %v", st.Name, resp["harness"], resp["panic"])
+		}
+		v, err := ref.StructFromJSON(st, resp["value"])
+		if err != nil || v == nil {
+			return nil, fmt.Errorf("harness: new %s: %v", st.Name, err)
+		}
+		out[st.Name] = v.(*ref.StructV)
+	}
+	return out, nil
+}
+
+// driverValue is the value as the driver must be told it: the driver marks an
+// absent field as unset by storing nil into pointer / slice / map fields, but
+// an optional binary field with a declared default is unset iff it holds the
+// default (IsSet compares with it), so that default is spelled out.
+func driverValue(t *ref.Type, v ref.V) ref.V {
+	if v == nil {
+		return nil
+	}
+	switch t.Kind {
+	case ref.List, ref.Set:
+		o := &ref.ListV{E: []ref.V{}}
+		for _, e := range v.(*ref.ListV).E {
+			o.E = append(o.E, driverValue(t.Elem, e))
+		}
+		return o
+	case ref.Map:
+		x := v.(*ref.MapV)
+		o := &ref.MapV{K: []ref.V{}, E: []ref.V{}}
+		for i := range x.K {
+			o.K = append(o.K, driverValue(t.Key, x.K[i]))
+			o.E = append(o.E, driverValue(t.Elem, x.E[i]))
+		}
+		return o
+	case ref.Struct:
+		x := v.(*ref.StructV)
+		o := ref.NewStruct()
+		for _, f := range t.Struct.Fields {
+			fv, ok := x.F[f.ID]
+			switch {
+			case ok && fv != nil:
+				o.F[f.ID] = driverValue(f.Type, fv)
+			case f.Req == idl.ReqOptional && f.HasDef && f.Type.Kind == ref.Binary && f.Default != nil:
+				o.F[f.ID] = f.Default
+			}
+		}
+		return o
+	}
+	return v
 }
 
 func colour(black bool) string {
@@ -746,6 +815,19 @@ func TestMask(t *testing.T) {
 		base.Option, base.Gen = option, genOf(option)
 		zeroReq := option == "field_mask_zero_required"
 		vt.Class("option:" + optName(option))
+		sess, err := drv.Open(base.Files, base.Main, base.Gen, extra)
+		if err != nil {
+			rt.Fatalf("harness: %v", err)
+		}
+		if sess.Status != "ok" {
+			vt.Class("session:" + sess.Status)
+			vt.Sample(map[string]interface{}{"program": p.Describe(), "gen": base.Gen, "status": sess.Status, "detail": sess.Detail})
+			return
+		}
+		fresh, err := loadBaselines(sess, sch)
+		if err != nil {
+			rt.Fatalf("%v", err)
+		}
 
 		npairs := rapid.IntRange(40, 100).Draw(rt, "npairs")
 		for i := 0; i < npairs; i++ {
@@ -762,7 +844,12 @@ func TestMask(t *testing.T) {
 				vt.Class("value_not_constructible")
 				continue
 			}
-			v := canon(top, v0).(*ref.StructV)
+			v1, ok := complete(top, v0, 16)
+			if !ok {
+				vt.Class("value_with_nil_struct")
+				continue
+			}
+			v := canon(top, v1).(*ref.StructV)
 			c.Value = ref.StructToJSON(st, v)
 			c.Black = rapid.Bool().Draw(rt, "black")
 			m := fmode{black: c.Black, zeroReq: zeroReq}
@@ -855,17 +942,20 @@ func TestMask(t *testing.T) {
 			}
 
 			c.Exact = c.Mode == "mask" && !c.Conflict && !(c.Black && blackStarEnd(paths))
+			if c.Mode == "nomask" {
+				c.WantRead = ref.StructToJSON(st, filterRead(top, v, nil, m, fresh).(*ref.StructV))
+			}
 			if c.Exact {
 				if c.At == nil {
-					c.WantWrite = ref.StructToJSON(st, filterWrite(top, v, root, m).(*ref.StructV))
-					c.WantRead = ref.StructToJSON(st, filterRead(top, v, root, m).(*ref.StructV))
+					c.WantWrite = ref.StructToJSON(st, canon(top, filterWrite(top, v, root, m)).(*ref.StructV))
+					c.WantRead = ref.StructToJSON(st, filterRead(top, v, root, m, fresh).(*ref.StructV))
 				} else {
 					ww := ref.NewStruct()
 					for id, fv := range v.F {
 						ww.F[id] = fv
 					}
 					ww.F[*c.At] = filterWrite(mtop, mv, root, m)
-					c.WantWrite = ref.StructToJSON(st, ww)
+					c.WantWrite = ref.StructToJSON(st, canon(top, ww).(*ref.StructV))
 				}
 			}
 
